@@ -88,6 +88,20 @@ CHECKS = {
              "are part of the model; crash consistency is outside the property.",
         technique="CrossHair symbolic execution (z3) with symbolic fault index over an executable SQL model",
         ref='4 C06'),
+    'C07': dict(
+        text="Decidable part of the property: bounded symbolic model checking of the skip rules of "
+             "_precheck (installed lexicons and extensions without their base are skipped as a whole, also "
+             "inside a multi-lexicon resource, and a repeated add changes no table), non-modification of "
+             "the in-memory resource (deep copy before = after, also after adding twice), equivalence of "
+             "the file route _add_lmf and the in-memory route on the same document (full table dumps), and "
+             "the file-signature sniffers on symbolic byte prefixes (exact, mutually exclusive). "
+             "NOT claimed: equality of content across .gz/.xz/tar/package/collection routes.",
+        note=NOTE_COMMON + DB_NOTE + "Route equivalence through zlib / liblzma / tarfile / directories is "
+             "not applicable to this technique (C and IO code the engine can only run concretely) and is "
+             "explicitly not claimed; scan_lexicons/load are stubbed in the route comparison (their "
+             "agreement is C20/C02).",
+        technique="CrossHair symbolic execution (z3) of real add paths over an executable SQL model (partial: see note)",
+        ref='4 C07'),
     'C08': dict(
         text="Bounded symbolic model checking of the real find_lexicons (Python loop + SQL with GLOB, "
              "ORDER BY, LIMIT on the SQL model), Wordnet.__init__ and wn.lexicons: for every specifier "
